@@ -34,7 +34,7 @@ CLASS_CODES = {
     'undeclared-attr': {17},
     'required': {6},
     'fixed': {26},
-    'bad-enum': {23, 9},
+    'bad-enum': {23, 9, 25},
     'bad-token': {24, 25, 9},
     'dup-id': {12},
     'dangling-idref': {13},
@@ -229,6 +229,9 @@ def build_bc(g, st_):
     if 'sa-norm' in V and dm.sa_norm_undetected(g['dtd'], g['doc']):
         st_.excluded_known['C07-sa-attnorm-trailing-inner'] += 1
         return 'excluded'
+    if 'sa-ws' in V and dm.sa_ws_undetected(g['dtd'], g['doc']):
+        st_.excluded_known['C07-sa-ws-before-reference'] += 1
+        return 'excluded'
     if 'bad-enum' in V and dm.enum_multi_only(g['dtd'], g['doc']):
         st_.excluded_known['C07-enum-multiple-tokens-accepted'] += 1
         return 'excluded'
@@ -320,6 +323,12 @@ KNOWN = {
         {'ext.dtd': '<!ATTLIST a p ID #IMPLIED q NMTOKENS #IMPLIED>\n'}, ['sa-norm'], 'sa-norm>sa-norm:trail'),
     # XML 1.0 3.3.1 VC Enumeration / VC Notation Attributes: the value must match ONE of the listed tokens.  DTDValidator::validateAttrValue treats
     # Enumeration and Notation as multi-valued types and checks the value token by token, so "x y" passes for (x|y).
+    # XML 1.0 2.9 VC Standalone Document Declaration, last bullet: white space directly within an externally declared element-content element.
+    # IGXMLScanner::scanCharData / DGXMLScanner::scanCharData flush the buffered characters (sendCharData) when they meet '&' or the end of an
+    # entity, and run the NoWSForStandalone check only on what is left in the buffer when '<' is reached: white space in front of a reference escapes.
+    'C07-sa-ws-before-reference': make_case(
+        '<?xml version="1.0" standalone="yes"?>\n<!DOCTYPE a SYSTEM "ext.dtd" [\n<!ELEMENT b EMPTY>\n<!ENTITY ge1 "<b/>">\n]>\n<a> &ge1;</a>\n',
+        {'ext.dtd': '<!ELEMENT a (b)*>\n'}, ['sa-ws'], 'sa-ws>sa-ws'),
     'C07-enum-multiple-tokens-accepted': make_case(
         '<!DOCTYPE r [\n<!ELEMENT r ANY>\n<!ATTLIST r t (x|y) #IMPLIED>\n]>\n<r t="x y"/>\n', {}, ['bad-enum'], 'enum-multi>bad-enum'),
 }
@@ -331,5 +340,7 @@ def classify(case, detail):
     if case.get('lane') == 'A': return None
     inj = case.get('injected') or ''
     if case.get('classes') == ['sa-norm'] and inj.startswith('sa-norm>') and 'no validity error was reported' in detail: return 'C07-sa-attnorm-trailing-inner'
+    if case.get('classes') == ['sa-ws'] and inj.startswith('sa-ws>') and 'no validity error was reported' in detail and b'&' in base64.b64decode(case['doc_b64']).split(b']>')[-1]:
+        return 'C07-sa-ws-before-reference'
     if case.get('classes') == ['bad-enum'] and inj.startswith('enum-multi>') and 'no validity error was reported' in detail: return 'C07-enum-multiple-tokens-accepted'
     return None
